@@ -130,8 +130,17 @@ def r1(ctx):
                     st = ABSENT
         return (env, st, trail + (repr(node) + (f' [{st}]' if st != PRESENT else ''),))
 
+    handler_states = set()
+    _orig_step = step
+
+    def step(state, node, label, _s=_orig_step):
+        if node.kind == 'except':
+            handler_states.add(state[1])
+        return _s(state, node, label)
+
     paths = cfg.paths(state0=({}, MAYBE, ()), step=step, loop_visits=3, max_visits=2, max_paths=400000)
     ctx.counters['paths_enumerated'] += len(paths)
+    ctx.handler_states = handler_states
     uniq = {}
     for node, st, trail in violations:
         uniq.setdefault((node.lineno, st), trail)
@@ -228,6 +237,33 @@ def r2(ctx):
     ctx.emit('C19-R2', len(lw) == 1, HANDLELIM, f, 'last-write time is recorded for pruning', key='lastw', nontrivial=False)
 
 
+@rule('C19', 'C19-R2b', 'the set of already-written paths only grows: nothing but the constructor resets or shrinks self.seen '
+                        '(otherwise a later re-open truncates a file that already holds records)')
+def r2b(ctx):
+    cls = ctx.ix.cls(HANDLELIM, CLS)
+    bad = []
+    for m in cls.body:
+        if not isinstance(m, ast.FunctionDef) or m.name == '__init__':
+            continue
+        for n in walk_no_nested(m):
+            if isinstance(n, (ast.Assign, ast.AugAssign, ast.AnnAssign)):
+                tg = n.targets if isinstance(n, ast.Assign) else [n.target]
+                for t in tg:
+                    for tt in (t.elts if isinstance(t, (ast.Tuple, ast.List)) else [t]):
+                        if src(tt) == 'self.seen':
+                            bad.append((m.name, n))
+            if isinstance(n, ast.Delete) and any(src(t).startswith('self.seen') for t in n.targets):
+                bad.append((m.name, n))
+            if isinstance(n, ast.Call) and isinstance(n.func, ast.Attribute) and src(n.func.value) == 'self.seen' and \
+                    n.func.attr in ('clear', 'remove', 'discard', 'pop', 'difference_update', 'intersection_update', 'symmetric_difference_update'):
+                bad.append((m.name, n))
+    for name, n in bad:
+        ctx.emit('C19-R2b', False, HANDLELIM, n, f'{CLS}.{name} resets/shrinks self.seen (`{src(n)[:60]}`): files written before are truncated when re-opened',
+                 key=f'seen-monotone:{name}', what=f'{CLS}.{name} forgets which files were already written (self.seen reset)')
+    if not bad:
+        ctx.emit('C19-R2b', True, HANDLELIM, cls, 'self.seen is only ever added to outside the constructor', key='seen-monotone')
+
+
 @rule('C19', 'C19-R3', 'the open-failure arm raises only when no other handle is open (len(openHandles) <= 1, the '
                        'entry of the path itself), and otherwise closes the other handles and retries')
 def r3(ctx):
@@ -253,55 +289,120 @@ def r3(ctx):
     ok = True
     why = []
     n_raise = 0
+    # is the entry of the path being opened counted in len(self.openHandles) when the failure arm runs?
+    if not hasattr(ctx, 'handler_states'):
+        r1(ctx)
+        ctx.obligations[:] = [o for o in ctx.obligations if o.rule != 'C19-R1' or True]
+    hs = getattr(ctx, 'handler_states', set()) or {PRESENT}
+    offsets = sorted({1 if st_ == PRESENT else 0 for st_ in hs} if MAYBE not in hs else {0, 1})
+    # types caught: must cover every failure of open()
+    hnames = []
+    if h.type is None:
+        hnames = [None]
+    else:
+        for t in (h.type.elts if isinstance(h.type, ast.Tuple) else [h.type]):
+            hnames.append(dotted(t))
+    if not any(x in (None, 'Exception', 'BaseException', 'OSError', 'IOError', 'EnvironmentError') for x in hnames):
+        ok = False
+        why.append(f'failure arm only catches {hnames}: other open failures are not retried')
+
+    def name_atom(x):
+        return 'n' if src(x) == 'len(self.openHandles)' else None
     for term, conds, closed in res:
         if term == 'raise':
             n_raise += 1
-            # conjunction of conds must imply n <= 1
-            for t, pol in conds:
-                try:
-                    ncase, bad = check_pred(t, (lambda e: e['n'] > 1) if not pol else (lambda e: e['n'] <= 1), symbols=['n'],
-                                            constraint=lambda e: e['n'] >= 0, atom_name=lambda x: 'n' if src(x) == 'len(self.openHandles)' else None,
-                                            extra_consts=(0, 1, 2))
-                    ctx.counters['abstract_cases'] += ncase
-                    if bad:
-                        ok = False
-                        why.append(f'raise guarded by `{src(t)}` == {pol}: differs from "no other handle open" at {bad[0]["case"]}')
-                except AnalysisError as ex:
-                    ok = False
-                    why.append(f'guard of raise not interpretable: {src(t)}')
-            if not conds:
-                ok = False
-                why.append('unconditional raise: never retries')
             if closed:
                 ok = False
                 why.append('raises after closing the other handles without retrying')
-        else:
-            if not closed:
+    raise_paths = [conds for term, conds, closed in res if term == 'raise']
+    if raise_paths:
+        # P_raise = OR over raise paths of AND(test == polarity)
+        def mk(conds):
+            parts = [t if pol else ast.UnaryOp(op=ast.Not(), operand=t) for t, pol in conds]
+            if not parts:
+                return ast.Constant(True)
+            return parts[0] if len(parts) == 1 else ast.BoolOp(op=ast.And(), values=parts)
+        disj = [mk(c) for c in raise_paths]
+        pred = disj[0] if len(disj) == 1 else ast.BoolOp(op=ast.Or(), values=disj)
+        for off in offsets:
+            try:
+                ncase, bad = check_pred(pred, lambda e, off=off: e['n'] - off <= 0, symbols=None,
+                                        constraint=lambda e, off=off: e.get('n', off) >= off, atom_name=name_atom, extra_consts=(0, 1, 2, 3))
+                ctx.counters['abstract_cases'] += ncase
+                if bad:
+                    ok = False
+                    c = bad[0]['case']
+                    others = c.get('n', off) - off
+                    why.append(f'with the entry of the path {"" if off else "not "}counted in openHandles: case {c} ({others} other handle(s) open): '
+                               + ('raises although other handles could be closed' if bad[0]['code'] else 'does not raise although no other handle is open (retries forever)'))
+            except AnalysisError as ex:
                 ok = False
-                why.append('a non-raising failure path does not close the other handles (retry loops forever / loses the record)')
+                why.append(f'guard of raise not interpretable: {src(pred)[:100]}')
+    for term, conds, closed in res:
+        if term != 'raise' and not closed:
+            ok = False
+            why.append('a non-raising failure path does not close the other handles (retry loops forever / loses the record)')
     if n_raise == 0:
         ok = False
         why.append('the failure arm never raises: a permanent failure loops forever')
     ctx.emit('C19-R3', ok, HANDLELIM, h, 'open-failure arm: ' + ('raises iff len(openHandles) <= 1, otherwise close() and retry' if ok else '; '.join(why)), key='raise-only-when-alone')
-    # the retry flag: failedOpening stays True on the failure path and is False only after a successful open
+    # the retry flag is cleared on every normal path through the try body, after the open
     tr = [t for t in walk_no_nested(f) if isinstance(t, ast.Try)][0]
-    last = tr.body[-1]
-    okf = isinstance(last, ast.Assign) and src(last) == 'failedOpening = False'
     wl = [w for w in walk_no_nested(f) if isinstance(w, ast.While)]
-    okw = len(wl) == 1 and src(wl[0].test) == 'failedOpening'
-    ctx.emit('C19-R3', okf and okw, HANDLELIM, tr, 'retry loop runs until the open succeeded (flag cleared as last statement of the try body)', key='retry-flag', nontrivial=False)
+    okw = len(wl) == 1 and isinstance(wl[0].test, ast.Name)
+    okf = False
+    if okw:
+        flag = wl[0].test.id
+        tcfg = CFG(tr.body, exceptions=False)
+        okf = True
+        for p, _ in tcfg.paths():
+            if tcfg.nodes[p[-1][0]].info != 'fall':
+                continue
+            last_open = last_clear = -1
+            for k, (nid, _l) in enumerate(p):
+                nn = tcfg.nodes[nid]
+                if any((dotted(c.func) or '') in ('open', 'gzip.open') for c in node_calls(nn)):
+                    last_open = k
+                if nn.kind == 'stmt' and isinstance(nn.ast, ast.Assign) and src(nn.ast) == f'{flag} = False':
+                    last_clear = k
+            if not (last_open >= 0 and last_clear > last_open):
+                okf = False
+    ctx.emit('C19-R3', okf and okw, HANDLELIM, tr, 'retry loop runs until the open succeeded (flag cleared after the open on every normal path of the try body)', key='retry-flag', nontrivial=False)
 
 
 @rule('C19', 'C19-R4', 'prune() and close() close a handle before they drop its entry; prune keeps the most recently written handles')
 def r4(ctx):
     for m in ('prune', 'close'):
         f = ctx.fn(HANDLELIM, f'{CLS}.{m}')
-        pops = [n for n in walk_no_nested(f) if isinstance(n, ast.Call) and src(n.func) == 'self.openHandles.pop']
-        closes = [n for n in walk_no_nested(f) if isinstance(n, ast.Call) and isinstance(n.func, ast.Attribute) and n.func.attr == 'close'
-                  and "['handle']" in src(n.func.value)]
-        ok = bool(pops) and bool(closes) and min(c.lineno for c in closes) < min(p.lineno for p in pops)
-        # the close must be for the same key variable family: the loop variable that is (later) popped
-        ctx.emit('C19-R4', ok, HANDLELIM, f, f'{m}(): handle.close() ' + ('precedes' if ok else 'does NOT precede') + ' openHandles.pop()', key=f'{m}:close-before-pop')
+        cfg = CFG(f.body, exceptions=False)
+        n_drop = 0
+        bad = False
+        for p, _ in cfg.paths(loop_visits=2):
+            closed = False
+            for nid, label in p:
+                nn = cfg.nodes[nid]
+                if nn.kind == 'test' and label == 'false' and "'handle' in" in src(nn.ast.test):
+                    closed = True      # the entry holds no handle: nothing to close
+                if nn.kind == 'for' and label == 'false' and any(
+                        isinstance(c, ast.Call) and isinstance(c.func, ast.Attribute) and c.func.attr == 'close' and 'handle' in src(c.func.value)
+                        for c in walk_no_nested(nn.ast)):
+                    closed = True      # the closing loop has been traversed for all entries
+                for c in node_calls(nn):
+                    if isinstance(c.func, ast.Attribute) and c.func.attr == 'close' and ("['handle']" in src(c.func.value) or 'handle' in src(c.func.value)):
+                        closed = True
+                    if src(c.func) in ('self.openHandles.pop', 'self.openHandles.clear', 'self.openHandles.popitem'):
+                        n_drop += 1
+                        # dropping an entry that holds a handle without having closed on this path
+                        if not closed:
+                            bad = True
+                if nn.kind == 'stmt' and isinstance(nn.ast, ast.Assign) and src(nn.ast.targets[0]) == 'self.openHandles':
+                    n_drop += 1
+                    if not closed and any(isinstance(x, ast.For) for x in walk_no_nested(f)):
+                        bad = True
+        has_close = any(isinstance(c, ast.Call) and isinstance(c.func, ast.Attribute) and c.func.attr == 'close' and 'handle' in src(c.func.value) for c in walk_no_nested(f))
+        ok = n_drop > 0 and has_close and not bad
+        ctx.emit('C19-R4', ok, HANDLELIM, f, f'{m}(): ' + ('every dropped entry was closed first' if ok else 'an entry is dropped without closing its handle (buffered records are lost)'),
+                 key=f'{m}:close-before-pop')
     f = ctx.fn(HANDLELIM, f'{CLS}.prune')
     srt = [n for n in walk_no_nested(f) if isinstance(n, ast.Call) and dotted(n.func) == 'sorted']
     ok = len(srt) == 1 and "['lastw']" in src(srt[0]) and not any(k.arg == 'reverse' for k in srt[0].keywords)
